@@ -9,7 +9,8 @@ RULE = ("random container shapes (lists of lists, records of records, mixed, dep
         "after every step every alias is printed. Scalars are copied (checked by mutating the copy). Compared with the "
         "Lean model and the structured semantics (records up to entry order). Non-trivial: at least two aliases of one "
         "container and one write through a path of length >= 2."
-        ' Key-spelling family: look-alike record keys (precomposed vs letter + nukta, with / without zero-width joiner, Bangla vs ASCII digit, trailing blank, letter case) are different keys on every write / read path.')
+        ' Key-spelling family: look-alike record keys (precomposed vs letter + nukta, with / without zero-width joiner, Bangla vs ASCII digit, trailing blank, letter case) are different keys on every write / read path.'
+        ' Shared name-collision family (props/collisions.py): 24 scenarios in which one name is bound more than once, x 2 layouts.')
 ASSUMPTIONS = ["record entry order is unspecified; outputs are matched up to permutation of entries"]
 default_compare = lambda m, i: C.compare_run(m, i)
 KEYS = ["k", "চ", "z"]
@@ -420,4 +421,10 @@ def cases(rng, tier, stats):
     ks = key_spelling_family()
     out += ks
     stats["key_spelling_family"] = len(ks)
+    # one name in two roles (props/collisions.py): shadowed functions, parameters named like globals / built-ins / their own function,
+    # bare conditions, indexed and plain writes, re-declarations — every use of a name resolves to its innermost binding
+    from props import collisions
+    nc_ = collisions.family()
+    out += nc_
+    stats["name_collision_programs"] = len(nc_)
     return out
